@@ -683,7 +683,8 @@ class Contract:
         info = {'paths': n_paths, 'seconds': time.time() - t0, 'branch_checks': I.n_branch_checks,
                 'outcomes': [o.kind + (':' + o.value.cls if o.kind == 'raise' else '') +
                              (':%d' % getattr(o, 'yield_index', 0) if o.kind == 'yield' else '') for o in outcomes],
-                'dropped': sorted(I.dropped), 'cover': self.cover(outcomes), 'uncovered': uncovered, 'budget_cut': cut[0]}
+                'dropped': sorted(I.dropped), 'cover': self.cover(outcomes), 'uncovered': uncovered, 'budget_cut': cut[0],
+                'unverified_units': sorted(getattr(I, 'unverified_units', ()))}
         self.outcomes = outcomes
         return results, info
 
